@@ -200,7 +200,7 @@ def behaviour(rng):
             ts = [x for x in ent if ent[x]]
             t = rng.choice(ts)
             steps.append({"op": "exit", "t": t, "s": ent[t].pop()})
-    return {"src": "random-c14", "format": "json", "opts": opts, "writer": {"shape": "s", "params": {}}, "steps": steps}
+    return {"src": "random-c14", "format": "json", "opts": opts, "opts_first": rng.random() < 0.3, "front": rng.choice(["layer", "layer", "builder"]), "writer": {"shape": "s", "params": {}}, "steps": steps}
 
 
 def to_trace(behs, lines):
